@@ -41,7 +41,44 @@ _FIXED = [
 ]
 
 
+# circuits with SEVERAL wire-cut markers (two wires, the same wire twice, three cuts, cuts next to payload-carrying and parametrised gates):
+# every marker must become its own placeholder (own object, own basis, own lists) -- selecting a map or relabelling one cut of the
+# result must not select / relabel another one
+_WIRES = [
+    {"nq": 2, "instrs": [{"name": "ry", "qubits": [0], "params": [0.7]}, {"name": "cx", "qubits": [0, 1]}, {"name": "cut_wire", "qubits": [0]},
+                         {"name": "cx", "qubits": [1, 0]}, {"name": "cut_wire", "qubits": [1]}, {"name": "cx", "qubits": [0, 1]}]},
+    {"nq": 2, "instrs": [{"name": "h", "qubits": [0]}, {"name": "cut_wire", "qubits": [0]}, {"name": "cx", "qubits": [0, 1]},
+                         {"name": "cut_wire", "qubits": [0]}, {"name": "sx", "qubits": [0]}]},
+    {"nq": 3, "instrs": [{"name": "cx", "qubits": [0, 1]}, {"name": "cut_wire", "qubits": [1]}, {"name": "cx", "qubits": [1, 2]},
+                         {"name": "cut_wire", "qubits": [2]}, {"name": "cut_wire", "qubits": [0]}, {"name": "cz", "qubits": [0, 2]}]},
+    {"nq": 3, "instrs": [{"name": "unitary", "qubits": [0], "params": [11, 1]}, {"name": "cut_wire", "qubits": [0]}, {"name": "rzz", "qubits": [0, 1]},
+                         {"name": "cut_wire", "qubits": [1]}, {"name": "unitary2", "qubits": [1, 2]}]},
+    {"nq": 4, "instrs": [{"name": "cut_wire", "qubits": [3]}, {"name": "cx", "qubits": [2, 3]}, {"name": "cut_wire", "qubits": [0]},
+                         {"name": "cry", "qubits": [0, 1]}, {"name": "cut_wire", "qubits": [3]}, {"name": "cut_wire", "qubits": [1]}]},
+]
+
+# result objects handed to the reconstruction, in both sampler interfaces and with registers of one, exactly eight, nine, twelve and
+# seventeen bits (a SamplerV2 register is stored as one row of BYTES per shot: one, two, three columns), as one result object with a plain
+# observable list and as a dictionary over partitions: the call must leave every array / distribution of the results as it was, and a second
+# reconstruction from the same objects must give the same numbers
+_RESULTS = [
+    {"fmt": "v2", "single": False, "subobs": [["ZI", "IZ", "XX"], ["Z", "X", "I"]], "nqpd": [9, 12], "ncoef": 3, "shots": 12},
+    {"fmt": "v2", "single": True, "subobs": [["ZI", "IZ", "ZZ", "II"]], "nqpd": [12], "ncoef": 3, "shots": 16},
+    {"fmt": "v2", "single": False, "subobs": [["ZZZZZZZZZ", "IIIIZIIII"], ["X", "Y"]], "nqpd": [17, 8], "ncoef": 2, "shots": 8},
+    {"fmt": "v2", "single": True, "subobs": [["XY", "ZI"]], "nqpd": [1], "ncoef": 4, "shots": 5},
+    {"fmt": "v1", "single": False, "subobs": [["ZI", "IX"], ["Y", "Z"]], "nqpd": [12, 9], "ncoef": 3, "shots": 6},
+    {"fmt": "v1", "single": True, "subobs": [["ZZ", "XI", "II"]], "nqpd": [10], "ncoef": 2, "shots": 4},
+]
+
+
 def cases(rng, tier):
+    for k, spec in enumerate(_WIRES):
+        yield ("audit", {"fn": "cut_wires", "nq": spec["nq"], "instrs": spec["instrs"], "labels": ["A"] * (spec["nq"] - 1) + ["B"],
+                         "obs": ["ZXIY"[: spec["nq"]], "IZZX"[: spec["nq"]]], "marker": k % 2 == 1, "meta": k % 3 == 0, "seed": 31 + k,
+                         "always_oracle": True})
+    for k, spec in enumerate(_RESULTS):
+        yield ("audit", {"fn": "reconstruct_expectation_values", "nq": 2, "instrs": [], "labels": ["A", "B"], "obs": ["ZI", "IZ"], "marker": False,
+                         "meta": False, "seed": 47 + k, "results": spec, "always_oracle": True})
     for k, spec in enumerate(_FIXED):
         for fn in FUNCS:
             yield ("audit", {"fn": fn, "nq": spec["nq"], "instrs": spec["instrs"], "labels": spec["labels"],
@@ -78,6 +115,9 @@ def _op(ins):
     from qiskit.quantum_info import random_unitary
     from qiskit_addon_cutting.qpd import TwoQubitQPDGate
     nm = ins["name"]
+    if nm == "cut_wire":
+        from qiskit_addon_cutting.instructions import CutWire
+        return CutWire()
     if nm == "qpd":
         g = ins["gate"]
         return TwoQubitQPDGate.from_instruction(canon.mk_op(g, [0.3] if g in ("rzz", "crx") else []))
@@ -110,6 +150,42 @@ def _circuit(payload, drop_qpd=False, marker=False, drop_marker=False):
     return qc
 
 
+def _results(payload):
+    """synthetic sampler results (not from a simulation: the audit is about ownership, the numbers are C06's business)"""
+    import random
+    from qiskit.quantum_info import PauliList
+    from qiskit.primitives import SamplerResult, PrimitiveResult, SamplerPubResult, BitArray, DataBin
+    from qiskit.result import QuasiDistribution
+    from qiskit_addon_cutting.qpd import WeightType
+    from qiskit_addon_cutting.utils.observable_grouping import ObservableCollection
+    spec = payload["results"]
+    rng = random.Random(payload["seed"])
+    labels = "ABCD"[: len(spec["subobs"])]
+    subobs = {l: PauliList(s) for l, s in zip(labels, spec["subobs"])}
+    coefs = [(rng.choice([0.5, -0.5, 0.75, -1.25, 1.0]), WeightType.EXACT) for _ in range(spec["ncoef"])]
+    results = {}
+    for l, nqpd in zip(labels, spec["nqpd"]):
+        exps = []
+        for _ in range(spec["ncoef"]):
+            for cog in ObservableCollection(subobs[l]).groups:
+                nb = max(1, len(cog.pauli_indices))
+                shots = [(rng.randrange(1 << nb), rng.randrange(1 << nqpd)) for _ in range(spec["shots"])]
+                if spec["fmt"] == "v2":
+                    nbo, nbq = (nb + 7) // 8, (nqpd + 7) // 8
+                    oa = np.array([[(o >> (8 * (nbo - 1 - j))) & 255 for j in range(nbo)] for o, q in shots], dtype=np.uint8)
+                    qa = np.array([[(q >> (8 * (nbq - 1 - j))) & 255 for j in range(nbq)] for o, q in shots], dtype=np.uint8)
+                    exps.append(SamplerPubResult(DataBin(observable_measurements=BitArray(oa, nb), qpd_measurements=BitArray(qa, nqpd), shape=())))
+                else:
+                    qd = {}
+                    for o, q in shots:
+                        qd[o | (q << nb)] = qd.get(o | (q << nb), 0.0) + 1.0 / len(shots)
+                    exps.append(QuasiDistribution(qd))
+        results[l] = PrimitiveResult(exps) if spec["fmt"] == "v2" else SamplerResult(exps, [{} for _ in exps])
+    if spec["single"]:
+        return results["A"], coefs, subobs["A"]
+    return results, coefs, subobs
+
+
 def _setup(payload):
     """-> (callable, args, features) for the audited function; upstream results are computed here, not audited"""
     from qiskit.quantum_info import PauliList
@@ -117,6 +193,9 @@ def _setup(payload):
     from qiskit_addon_cutting.qpd import decompose_qpd_instructions, BaseQPDGate
     from qiskit_addon_cutting.utils.simulation import ExactSampler
     fn = payload["fn"]
+    if payload.get("results") is not None:
+        return ((lambda r, c, o: P.reconstruct_expectation_values(r, c, o)), list(_results(payload)),
+                {"preplaced": False, "payload": False, "map_ops": False, "param_ops": False})
     obs = PauliList(payload["obs"])
     qc = _circuit(payload)
     labs = payload["labels"]
@@ -186,7 +265,8 @@ def _dups(out):
 def _observe(payload):
     keep = []
     f, args, feats = _setup(payload)
-    out, mutated, classes = audit.audit(f, args, keep)
+    changed = []
+    out, mutated, classes = audit.audit(f, args, keep, changed)
     # a second call: what do the two results share that does not come from the arguments?
     ina = {}
     for k, a in enumerate(args):
@@ -197,7 +277,9 @@ def _observe(payload):
     audit.mutables(out2, o2, keep, "out")
     cross = sorted({audit.norm(o1[i]) for i in o1 if i in o2 and i not in ina})
     same_again = audit.fp(out) == audit.fp(out2) if payload["fn"] != "find_cuts" else True
-    return {"mutated": mutated, "classes": sorted(classes), "examples": {c: list(v) for c, v in classes.items()}, "dup": _dups(out),
+    # placeholders of different cuts inside ONE result that are the same object / hold the same basis or lists (not inherited from the arguments)
+    alias = [[w, pa, pb] for w, pa, pb, _, _ in audit.placeholder_aliases(out, ina, keep)][:3]
+    return {"alias": alias, "changed": changed, "mutated": mutated, "classes": sorted(classes), "examples": {c: list(v) for c, v in classes.items()}, "dup": _dups(out),
             "cross": cross, "repeatable": same_again, "features": feats}
 
 
@@ -211,7 +293,7 @@ def model_line(kind, payload):
 
 def run_real(kind, payload):
     ob = _observe(payload)
-    return {"ok": {k: ob[k] for k in ("mutated", "classes", "dup", "cross", "repeatable")}}
+    return {"ok": {k: ob[k] for k in ("mutated", "classes", "dup", "cross", "repeatable", "alias")}}
 
 
 def model_canon(kind, payload, out):
@@ -233,6 +315,9 @@ def compare(kind, payload, real, model):
         return f"{payload['fn']} shares {extra} with its arguments; the model predicts only {m['shares']}"
     if r["dup"]:
         return f"{payload['fn']} returned the same circuit object twice"
+    if r.get("alias"):
+        w, pa, pb = r["alias"][0]
+        return f"{payload['fn']}: the placeholders at {pa} and {pb} of one result share {w}"
     if r["cross"]:
         return f"results of two {payload['fn']} calls share {r['cross'][:3]}"
     if not r["repeatable"]:
@@ -312,6 +397,66 @@ def _confirm_edit(payload, cls):
                 pass
 
 
+def _confirm_alias(payload):
+    """on a fresh result: edit the placeholder of one cut (select a map, or edit the shared basis part) and look at the placeholder of the
+    OTHER cut; -> None, or a sentence saying what changed.  The edit is withdrawn afterwards."""
+    keep = []
+    f, args, _ = _setup(payload)
+    ina = {}
+    for k, a in enumerate(args):
+        audit.mutables(a, ina, keep, "arg%d" % k)
+    out = f(*args)
+    hits = audit.placeholder_aliases(out, ina, keep)
+    if not hits:
+        return None
+    what, pa, pb, opa, opb = hits[0]
+    before, undo = audit.fp_op(opb), None
+    try:
+        if what == "the placeholder object":
+            old = opa.basis_id
+            opa.basis_id = 1 if old != 1 else 0
+            undo = lambda: setattr(opa, "basis_id", old)
+            did = f"selecting map {opa.basis_id} (basis_id) on the placeholder at {pa}"
+        elif what in ("the basis object", "the coefficient list"):
+            oldc = opa.basis.coeffs
+            opa.basis.coeffs = [c * 2 for c in oldc]
+            undo = lambda: setattr(opa.basis, "coeffs", oldc)
+            did = f"doubling the coefficients of the basis of the placeholder at {pa}"
+        else:
+            theirs = [id(side) for m in opb.basis.maps for side in m]
+            lst = opa.basis.maps if what == "the list of maps" else next(side for m in opa.basis.maps for side in m if id(side) in theirs)
+            lst.append(lst[0])
+            undo = lst.pop
+            did = f"appending to {what} of the basis of the placeholder at {pa}"
+        try:
+            moved = audit.fp_op(opb) != before
+        except Exception:
+            moved = True
+    finally:
+        if undo is not None:
+            try:
+                undo()
+            except Exception:
+                pass
+    if not moved:
+        return None
+    msg = f"{did} also changes the placeholder of a different cut at {pb} (they share {what})"
+    # a later call on the returned circuit: in-place decomposition with one map id per cut
+    try:
+        from qiskit.circuit import QuantumCircuit
+        from qiskit_addon_cutting.qpd import decompose_qpd_instructions
+        if isinstance(out, QuantumCircuit):
+            ids = [[i] for i, x in enumerate(out.data) if hasattr(x.operation, "basis") and hasattr(x.operation, "basis_id")]
+            maps = [k % len(out.data[i[0]].operation.basis.maps) for k, i in enumerate(ids)]
+            want = audit.fp(decompose_qpd_instructions(out.copy(), ids, maps))  # QuantumCircuit.copy gives every slot its own operation object
+            got = audit.fp(decompose_qpd_instructions(f(*args), ids, maps, inplace=True))
+            if want != got:
+                msg += f"; decompose_qpd_instructions(result, {ids}, map_ids={maps}, inplace=True) then yields a different circuit than for a copy of the result"
+    except Exception:
+        pass
+    return msg
+
+
 def oracle(kind, payload):
     try:
         ob = _observe(payload)
@@ -321,9 +466,13 @@ def oracle(kind, payload):
         return f"function={payload['fn']} audit crashed: {type(ex).__name__}: {ex}"
     fn = payload["fn"]
     if ob["mutated"]:
-        return f"function={fn} class=MUTATION: the call modified its arguments"
+        return f"function={fn} class=MUTATION: the call modified its arguments" + (f" (argument(s) {ob['changed']} differ from their snapshot)" if ob.get("changed") else "")
     if ob["dup"]:
         return f"function={fn} class=DUP: the same circuit object is returned twice (editing one returned circuit edits another)"
+    if ob["alias"]:
+        why = _confirm_alias(payload)
+        if why is not None:
+            return f"function={fn} class=ALIAS: {why}"
     if ob["cross"]:
         return f"function={fn} class=CROSS: the results of two calls share mutable objects {ob['cross'][:3]}"
     if not ob["repeatable"]:
